@@ -128,6 +128,7 @@ Inductive res :=
 | RSkipped            (* "is up to date" *)
 | ROk | RFailed | RDeclined | RKilled
 | RDry                (* --dry went past the check: commands printed, not run *)
+| RDryQ               (* observation only: a silent --dry said nothing (up to date or not cannot be told) *)
 | RStatus (up : bool)
 | RQuery.
 
@@ -473,7 +474,7 @@ Section Oracles.
   Definition res_eqb (a b : res) : bool :=
     match a, b with
     | RFile, RFile | RNoTask, RNoTask | RSkipped, RSkipped | ROk, ROk | RFailed, RFailed
-    | RDeclined, RDeclined | RKilled, RKilled | RDry, RDry | RQuery, RQuery => true
+    | RDeclined, RDeclined | RKilled, RKilled | RDry, RDry | RDryQ, RDryQ | RQuery, RQuery => true
     | RStatus x, RStatus y => Bool.eqb x y
     | _, _ => false
     end.
